@@ -7,6 +7,7 @@ from hypothesis import strategies as st
 
 from han import aidon, kaifa, kamstrup
 from vlib import gen_cosem as C
+from vlib.pool import PRELUDES, run_prelude
 from vlib.runner import Check, HypClause, Info, fail, guarded
 
 logging.disable(logging.CRITICAL)
@@ -65,9 +66,13 @@ def decode_at(position, spec):
 
 
 def oracle(case) -> Info:
-    spec = tuple(case)
+    spec = tuple(case[:10])
     exp = C.dt_expected(spec)
+    twin = tuple(case[10]) if len(case) > 10 and case[10] is not None else None
     for pos in POSITIONS:
+        if twin is not None:
+            # a date-time with the same civil fields but another deviation/hundredths decoded just before must not matter
+            decode_at(pos, twin)
         got = decode_at(pos, spec)
         m = C.same_dt(got, exp)
         if m:
@@ -86,6 +91,16 @@ def oracle(case) -> Info:
     return Info(nontrivial=nt, classes=tuple(classes), sample={"octets": C.dt_octets(spec).hex(), "expected": exp.isoformat()})
 
 
+@st.composite
+def _case_st(draw):
+    spec = draw(C.dt_spec_st())
+    twin = None
+    if draw(st.booleans()):
+        other = draw(C.dt_spec_st())
+        twin = spec[:7] + (other[7], other[8], other[9])  # same civil fields, different hundredths / deviation / status
+    return spec + (twin,)
+
+
 def build() -> Check:
     return Check(
         pid="C10",
@@ -97,8 +112,9 @@ def build() -> Check:
             "element body+frame; Kaifa positional clock body+frame with a different APDU date-time that must lose; Kaifa OBIS-tagged clock "
             "body+frame; Kamstrup clock element). Oracle: civil fields, microseconds = hundredths*10000, tz None iff deviation "
             "unspecified else utcoffset = -deviation - fields and offset compared separately. Non-trivial = deviation specified and "
-            "!= 0, or status 0xFF, or hundredths in 1..99. Distinct = distinct 12-octet value."
+            "!= 0, or status 0xFF, or hundredths in 1..99. In half of the cases a 'twin' date-time with the same civil fields but different "
+            "hundredths/deviation/status is decoded in the same position immediately before (no state may carry over). Distinct = case hash."
         ),
         assumptions=["Year/month/day/hour/minute/second are specified (the property's domain); the surrounding message content is fixed and well-formed."],
-        clauses=[HypClause("datetimes", C.dt_spec_st, oracle, quick=4000, thorough=100000)],
+        clauses=[HypClause("datetimes", _case_st, oracle, quick=4000, thorough=100000)],
     )
